@@ -80,7 +80,26 @@ class MleInfo:
             return None
         tg = st.targets[0]
         if isinstance(tg, (ast.Tuple, ast.List)):
-            return list(tg.elts)
+            elts = list(tg.elts)
+            # 'a_hat, b_hat, _ = fit(...)' followed by 'self.a = a_hat' (possibly 'a_hat if self.f_a is None else self.f_a'):
+            # the attribute the temporary is stored in is the target
+            out = []
+            for e in elts:
+                rep_ = e
+                if isinstance(e, ast.Name) and e.id != "_":
+                    uses = []
+                    for s2 in self.cfg.all_stmts():
+                        if isinstance(s2, ast.Assign) and len(s2.targets) == 1 and isinstance(s2.targets[0], ast.Attribute) and s2 is not st:
+                            v = s2.value
+                            cands = [v] + ([v.body, v.orelse] if isinstance(v, ast.IfExp) else [])
+                            if any(isinstance(c_, ast.Name) and c_.id == e.id for c_ in cands):
+                                defs = [d for d in self.b.rd.reaching(e.id, self.cfg.node(s2)) if d.kind != "del"]
+                                if len(defs) == 1 and defs[0].stmt is st:
+                                    uses.append(s2.targets[0])
+                    if len(uses) == 1:
+                        rep_ = uses[0]
+                out.append(rep_)
+            return out
         if isinstance(tg, ast.Name):
             # result kept in a temporary: 'a, b, c = fitted' or 'self.a = fitted[0]; ...' (the temporary bound only by the fit)
             rd = self.b.rd
